@@ -299,6 +299,7 @@ theorem effectiveVersion_obj {d : Json} {v : Int} (h : effectiveVersion d = some
     split at h
     · rename_i hn; cases h; simp [hn]
     · rename_i i hi; cases h; simp [hi, versionInt]
+    · rename_i hi; cases h; simp [hi, versionInt]
     · cases h
   | _ => simp [effectiveVersion] at h
 
@@ -390,6 +391,22 @@ theorem convertDict_drop {d : Json} {v : Int} (ms : List Mapping) (hv : effectiv
 theorem nonPositiveVersion_int {v : Int} (h : 1 ≤ v) : nonPositiveVersion (.int v) = false := by
   simp only [nonPositiveVersion, versionInt, decide_eq_false_iff_not]
   omega
+
+/-- whatever the `Versioned` prologue returns is the remainder applied to some document -/
+theorem deserVersioned_ok {α} {rest : Json → α} {ms : Option (List Mapping)} {d : Json} {y : α}
+    (h : deserVersioned rest ms d = .ok y) : ∃ d', y = rest d' := by
+  simp only [deserVersioned] at h
+  split at h
+  · split at h
+    · cases h
+    · split at h
+      · cases h
+      · split at h
+        · cases h; exact ⟨_, rfl⟩
+        · cases h; exact ⟨_, rfl⟩
+        · rcases bindE_eq_ok h with ⟨d', _, h2⟩
+          cases h2; exact ⟨_, rfl⟩
+  · cases h
 
 /-! ### the Bool equality used by the executable laws is sound -/
 
